@@ -187,7 +187,7 @@ def _(self: Obj['rbql_engine.compile_and_run.UNNEST'], vals: List[Cell], *, quer
     modifies(field(query_context, 'unnest_list'))
 
 
-@contract('rbql_engine.compile_and_run.select_unnested', name='C01.select_unnested', props=['C01', 'C15', 'C06'])
+@contract('rbql_engine.compile_and_run.select_unnested', name='C01.select_unnested', props=['C01', 'C02', 'C15', 'C06'])
 def _(sort_key: Opt[Key], folded_fields: List[Cell], *, query_context: Obj['rbql_engine.RBQLContext'], UNNEST: Cls['rbql_engine.compile_and_run.UNNEST']) -> Bool:
     requires(ctx_inv(query_context), 'ctx')
     requires(implies(query_context.writer.sorted_iface, not is_none(sort_key)), 'sort_key_present')
